@@ -1,7 +1,7 @@
 (* C05Theorems.v — the property theorems of C05 and nothing else.  Each is closed by `exact <lemma>`
    and followed by Print Assumptions (audited by ./check on every run). *)
 From V.lib Require Import Base.
-From V.c05 Require Import C05Model C05FragModel C05OptProofs C05HistProofs.
+From V.c05 Require Import C05Model C05FragModel C05OptProofs C05HistProofs C05LazyProofs.
 
 (* OptimizeTfhdTrun, then encode/decode of the trun (structure level: wire_trun), then
    AddSampleDefaultValues with ANY trex (or none) gives back exactly the samples of the trun, for all
@@ -86,6 +86,23 @@ Theorem C05_offsets_partial : forall T ops cs fr,
               m (fr_next fr).
 Proof. exact offsets_single. Qed.
 Print Assumptions C05_offsets_partial.
+
+(* C05_lazy_equiv, full statement (byte level, NOT proved): encode (run_lazy h) ++ concat (data h) = encode (run_full h).
+   Proved part (structure level): replacing every AddFullSample / AddFullSampleToTrack of a history by AddSample /
+   AddSampleToTrack (data written separately by the caller) gives the same outcome classes, the same trafs (so
+   the same truns, flags, write-order numbers, tfdt) and the same moof size; the mdat data stays untouched and
+   the lazy size is the (uint64) sum of the accepted samples' sizes.  What remains for the byte level is the
+   equality of the mdat header (payload = that sum when Sample.Size = len(Data)) and the box codecs. *)
+Theorem C05_lazy_equiv_partial : forall ops a b cs a',
+  forallb is_full ops = true -> same_meta a b ->
+  run_ops a ops = (cs, Some a') ->
+  exists b', run_ops b (map to_lazy ops) = (cs, Some b') /\
+             fr_trafs a' = fr_trafs b' /\ fr_next a' = fr_next b' /\ moof_size a' = moof_size b' /\
+             md_data (fr_mdat b') = md_data (fr_mdat b) /\
+             md_lazy (fr_mdat b') =
+               fold_left (fun acc o => u64 (acc + s_size (op_first_sample o))) (accepted cs ops) (md_lazy (fr_mdat b)).
+Proof. exact lazy_equiv. Qed.
+Print Assumptions C05_lazy_equiv_partial.
 
 (* the hypotheses are satisfiable by a non-trivial value: three samples, first flags differ, cto all zero *)
 Example C05_optimize_resolve_ex :
